@@ -10,7 +10,7 @@ State space (DESIGN.md §3 C08), a product lattice swept completely:
            chempy._equilibrium.solve_equilibrium (brentq) for single-equilibrium systems
   precipitation: the NaCl(s) system, init in {0, .5, 1, 2, 3}^3 \\ {0}, three chains x two option sets
 Oracle (from the statement), applied to every run that reports `success and sane`:
-  x >= 0;  |B x - B init| <= 1e-6 * (|B| |init|) for every element and charge;  |Q_i / K_i - 1| <= 1e-6;
+  x >= 0;  |B x - B init| <= 1e-6 * (|B| max(|init|,|x|)) for every element and charge;  |Q_i / K_i - 1| <= 1e-6;
   precipitation: IP meets Ksp (solid >= 0) or the solid is absent (<= 1e-9) and IP <= Ksp (1 + 1e-6).
 Liveness: in every chunk (>= 20 strictly positive homogeneous cases) the default chains — root's (Log,) and
 solve's (Log, Lin) — claim success+sane in at least 19 of 20 cases.  Single-equilibrium results agree with brentq.
@@ -40,6 +40,7 @@ META = dict(
 )
 
 RTOL = 1e-6
+GROSS = 1e-3  # violations are keyed separately as marginal (1e-6 < rel. error <= 1e-3) and gross (> 1e-3)
 SOLID_ABSENT = 1e-9
 H2O = 55.5
 L3 = [1e-2, 1e-4, 1e-6]
@@ -130,11 +131,12 @@ def judge(names, idx, K, init, x):
     B, keys = M.balance_matrix(names)
     for row, k in zip(B, keys):
         row = np.asarray(row, dtype=float)
-        t0, t1, mag = float(row @ init), float(row @ x), float(np.abs(row) @ np.abs(init))
+        # magnitude of the terms summed at either state (species formed from the solvent can exceed their initial amount by decades)
+        t0, t1, mag = float(row @ init), float(row @ x), float(np.abs(row) @ np.maximum(np.abs(init), np.abs(x)))
         rel = abs(t1 - t0) / mag if mag > 0 else (0.0 if t1 == t0 else float("inf"))
         mags["cons"] = max(mags["cons"], rel)
         if rel > RTOL:
-            kinds.add("totals")
+            kinds.add("totals" if rel > GROSS else "totals(<1e-3)")
         if k != 0 and np.any(row * x > t0 * (1 + RTOL) + 1e-300):
             kinds.add("exceeds-element-total")
     for i, k in zip(idx, K):
@@ -146,7 +148,10 @@ def judge(names, idx, K, init, x):
             err = abs(math.expm1(sum(nu * math.log(xj) for nu, xj in part) - math.log(k)))
         mags["q"] = max(mags["q"], err)
         if err > RTOL:
-            kinds.add("Q!=K")
+            kinds.add("Q!=K" if err > GROSS else "Q!=K(<1e-3)")
+    for k in ("totals", "Q!=K"):  # one class per quantity: the gross one wins
+        if k in kinds:
+            kinds.discard(k + "(<1e-3)")
     return sorted(kinds), mags
 
 
@@ -164,7 +169,7 @@ def judge_precip(init, x):
     mags = dict(min_x=float(x.min()), cons=0.0)
     for row in ([1, 0, 1], [0, 1, 1], [1, -1, 0]):  # Na, Cl, charge
         row = np.asarray(row, dtype=float)
-        mag = float(np.abs(row) @ np.abs(init))
+        mag = float(np.abs(row) @ np.maximum(np.abs(init), np.abs(x)))
         rel = abs(float(row @ x) - float(row @ init)) / mag if mag > 0 else (0.0 if float(row @ x) == 0 else float("inf"))
         mags["cons"] = max(mags["cons"], rel)
         if rel > RTOL:
@@ -236,7 +241,8 @@ def _record(res, run, what_sys, case, claim, kinds, mags, x):
         res.outcomes["%s:success+sane:genuine" % run] += 1
         for k in ("cons", "q"):
             if k in mags:
-                res.extra["max_%s_err_accepted" % k] = max(res.extra.get("max_%s_err_accepted" % k, 0.0), mags[k])
+                kk = "max_%s_err_accepted_in_1e-12" % k  # the runner rounds extras to 6 decimals: report in units of 1e-12
+                res.extra[kk] = max(res.extra.get(kk, 0.0), round(mags[k] * 1e12, 3))
         return True
     res.outcomes["%s:success+sane:NOT-GENUINE(%s)" % (run, "+".join(kinds))] += 1
     res.violation("C08|%s|success+sane|%s" % (run, "+".join(kinds)),
